@@ -275,6 +275,7 @@ def core_menu(cols, roles, depth, hist=None):
     items += order_items(cols, roles)
     items += join_items(cols, roles, depth)
     items += concat_items(cols, roles, depth)
+    items += cdata_items(cols, roles)
     return items
 
 
@@ -318,6 +319,7 @@ def core_menu_q(cols, roles, depth, hist=None):
             continue
         items.append(j)
     items += concat_items(cols, roles, depth)[:2]
+    items += cdata_items(cols, roles)
     return items
 
 
